@@ -18,7 +18,8 @@ type Emission struct {
 	T      Tmpl
 	Conds  []string // symbolic conditions controlling the emission
 	InLoop bool
-	Pos    token.Pos
+	Pos    token.Pos // position of the statement in the exported method that leads to the emission
+	SinkPos token.Pos
 	Seq    int
 	Helper string // name of the shell helper routine this line belongs to ("" = main code)
 }
@@ -233,6 +234,10 @@ func (x *Extractor) controlConds(b *ssa.BasicBlock, e *env) []string {
 }
 
 func (x *Extractor) walk(fn *ssa.Function, e *env, mf *MethodFacts, via []string, active map[*ssa.Function]int) {
+	x.walkAt(fn, e, mf, via, active, token.NoPos)
+}
+
+func (x *Extractor) walkAt(fn *ssa.Function, e *env, mf *MethodFacts, via []string, active map[*ssa.Function]int, topPos token.Pos) {
 	if active[fn] > 1 || fn.Blocks == nil {
 		return
 	}
@@ -265,7 +270,11 @@ func (x *Extractor) walk(fn *ssa.Function, e *env, mf *MethodFacts, via []string
 				if x.Sinks[callee] {
 					args := ins.Call.Args
 					t := asTmpl(x.eval(args[len(args)-1], e))
-					em := Emission{Method: mf.Name, Via: append([]string{}, via...), Sink: callee.Name(), T: norm(t), Conds: x.controlConds(b, e), InLoop: loops[b], Pos: ins.Pos()}
+					pos := topPos
+					if !pos.IsValid() {
+						pos = ins.Pos()
+					}
+					em := Emission{Method: mf.Name, Via: append([]string{}, via...), Sink: callee.Name(), T: norm(t), Conds: x.controlConds(b, e), InLoop: loops[b], Pos: pos, SinkPos: ins.Pos()}
 					x.emit(mf, em)
 					continue
 				}
@@ -280,9 +289,15 @@ func (x *Extractor) walk(fn *ssa.Function, e *env, mf *MethodFacts, via []string
 				if e.depth >= x.MaxDepth {
 					continue
 				}
+				x.curCall = ins
 				ne := x.bindCall(callee, ins.Call.Args, e, &evalCtx{busy: map[ssa.Value]bool{}}, clos, closEnv)
+				x.curCall = nil
 				before := len(mf.Emissions)
-				x.walk(callee, ne, mf, append(append([]string{}, via...), callee.Name()), active)
+				tp := topPos
+				if !tp.IsValid() {
+					tp = ins.Pos()
+				}
+				x.walkAt(callee, ne, mf, append(append([]string{}, via...), callee.Name()), active, tp)
 				// emissions of the callee inherit the caller's control conditions and loop status
 				cc := x.controlConds(b, e)
 				for i := before; i < len(mf.Emissions); i++ {
@@ -352,6 +367,24 @@ func (x *Extractor) resolveCallee(c *ssa.Call, e *env) (*ssa.Function, *ssa.Make
 		return fv.Fn, fv.Clos, fv.Env
 	}
 	return nil, nil, nil
+}
+
+// PathCompatible: two emissions can lie on one path (no contradictory conditions).
+func PathCompatible(a, b Emission) bool {
+	neg := func(c string) string {
+		if strings.HasPrefix(c, "!(") && strings.HasSuffix(c, ")") {
+			return c[2 : len(c)-1]
+		}
+		return "!(" + c + ")"
+	}
+	for _, ca := range a.Conds {
+		for _, cb := range b.Conds {
+			if neg(ca) == cb {
+				return false
+			}
+		}
+	}
+	return true
 }
 
 // emit appends an emission, replicating it per element when its template
